@@ -37,6 +37,33 @@ prop(
     "C-backed readers (xtc/trr/dcd/dtr) are bounded-only.",
 )
 
+prop(
+    "C20",
+    contract_modules=["contracts.c20"],
+    bcc="c20",
+    level="proof",
+    claimed=True,
+    technique="contract-based deductive verification: path property (existence test dominates every write effect) by symbolic execution of every writer constructor with symbolic exists/force_overwrite; bounded sha256 check on real files as labelled stand-in for the Cython writers",
+    level_text="For every pure-Python writer constructor and open_maybe_zipped: with symbolic `exists` and `force_overwrite`, every path that "
+    "reaches a write effect has (not exists or force_overwrite), refusal raises OSError before any effect, and the first write effect "
+    "truncates. save_* propagate their own force_overwrite to every (numbered) file. Cython constructors (xtc/trr/dcd/dtr) bounded only.",
+    level_note="Trusted: table of which library calls have write effects (fs.effects); single process (no TOCTOU claim); VC generator.",
+    trusted=["fs.effects"],
+    assumptions=["effects of open modes and of the third-party open functions are as listed in fs.effects", "no concurrent process changes the path between the existence test and the open"],
+    explanation="Existence-check-dominates-write-effects proved per constructor for symbolic exists/force_overwrite.",
+)
+
+prop(
+    "C01",
+    contract_modules=["contracts.c01"],
+    bcc="c01",
+    level="other",
+    claimed=False,
+    trusted=["numpy.array-model", "mdtraj.utils.in_units_of"],
+    assumptions=[],
+    explanation="",
+)
+
 # ---- stubs (filled in as the contracts are written) -------------------------------------------
 for _pid in ["C01", "C02", "C03", "C04", "C05", "C06", "C07", "C08", "C09", "C10", "C11", "C12", "C13", "C14",
              "C15", "C16", "C17", "C19", "C20"]:
